@@ -28,6 +28,10 @@ Inductive cop :=
 | CCall (body : cop)      (* decorated plain function (wrap_function) *)
 | CWith (body : cop)      (* with profiler: body *)
 | CCatch (body : cop)
+| CRun (body : cop)       (* run(stmt) / runctx(stmt, g, l) with a str or a code object / runcall(f): the
+                            statement or function executes `body` *)
+| CRunEmpty               (* run('') / runctx('', g, l) *)
+| CRunBad                 (* a statement that does not COMPILE: exec raises SyntaxError before running anything *)
 | CObj (o : objop) (s : Z).
 
 (* wrapped generator not yet started with k resumes to go / suspended at a yield with k
@@ -76,8 +80,10 @@ Fixpoint expand (t : thread) (c : cop) (sl : Z -> slot) : list event * (Z -> slo
       let '(ea, sa, ra) := expand t a sl in
       if ra then (ea, sa, true)
       else let '(eb, sb, rb) := expand t b sa in (ea ++ eb, sb, rb)
-  | CCall body | CWith body =>
+  | CCall body | CWith body | CRun body =>
       let '(eb, sb, rb) := expand t body sl in (EPrim t En :: eb ++ [EPrim t Dis], sb, rb)
+  | CRunEmpty => ([EPrim t En; EPrim t Dis], sl, false)
+  | CRunBad => ([EPrim t En; EPrim t Dis], sl, true)
   | CCatch body => let '(eb, sb, _) := expand t body sl in (eb, sb, false)
   | CObj o s => let '(e, st) := obj_expand t o (sl s) in (e, upd sl s st, false)
   end.
@@ -152,7 +158,9 @@ Fixpoint abstract (c : cop) : op :=
   | CObs => Skip
   | CRaise => Raise
   | CSeq a b => Seq (abstract a) (abstract b)
-  | CCall body | CWith body => Block (abstract body)
+  | CCall body | CWith body | CRun body => Block (abstract body)
+  | CRunEmpty => Block Skip
+  | CRunBad => Block Raise
   | CCatch body => Catch (abstract body)
   | CObj _ _ => Skip
   end.
@@ -160,6 +168,6 @@ Fixpoint object_free (c : cop) : bool :=
   match c with
   | CObj _ _ => false
   | CSeq a b => object_free a && object_free b
-  | CCall b | CWith b | CCatch b => object_free b
+  | CCall b | CWith b | CCatch b | CRun b => object_free b
   | _ => true
   end.
